@@ -242,9 +242,12 @@ func DecodeClaimsFromJSON(buf []byte) (IClaims, error) {
 	}
 
 	var found IProfile
+	declared := false
 
 	for name, entry := range profilesRegister {
-		if profileTag, ok := decoded[entry.JSONTag]; ok {
+		if profileTag, ok := decoded[entry.JSONTag]; ok && profileTag != nil {
+			declared = true
+
 			if profileTag != entry.Profile.GetName() {
 				continue
 			}
@@ -259,7 +262,14 @@ func DecodeClaimsFromJSON(buf []byte) (IClaims, error) {
 	}
 
 	if found == nil {
-		return nil, errors.New(`could not match profile`)
+		// as with CBOR, Profile1 is assumed in the absence of a
+		// profile field.
+		entry, ok := profilesRegister[""]
+		if declared || !ok {
+			return nil, errors.New(`could not match profile`)
+		}
+
+		found = entry.Profile
 	}
 
 	claims := found.GetClaims()
